@@ -3,7 +3,7 @@
 From Coq Require Import List ZArith Bool Arith Lia.
 From RecordUpdate Require Import RecordSet.
 From MV Require Import Model.Proxy Model.ProxySpec Proofs.ProxyReach Proofs.ProxyFamily Proofs.ProxyFam Proofs.ProxyRefute
-  Gen.ProxyTokens.
+  Proofs.ProxySrc.
 Import ListNotations RecordSetNotations.
 Open Scope Z_scope.
 
@@ -22,7 +22,7 @@ Ltac impl_elim H tac :=
 Definition c03_safe (g : gs) : Prop :=
   reply_wf g = true /\ (g_clean g <= 1)%nat /\ (g_log g <= 1)%nat /\ (g_destroy g <= 1)%nat /\ g_panic g = false.
 
-Lemma c03_safe_family : forall c, In c family -> forall sched, Forall allowed sched -> c03_safe (summ proxy_src c sched).
+Lemma c03_safe_family : forall c, In c family -> forall sched, Forall allowed sched -> c03_safe (summ src_tree c sched).
 Proof.
   intros c Hc sched Hs. fam_conj c sched Hc Hs. unfold good_c03 in H. cbn [i_st i_gs summary_of] in H.
   repeat match type of H with (_ && _) = true => let H2 := fresh "K" in apply andb_prop in H as [H H2] end.
@@ -39,8 +39,8 @@ Definition outcome (c : cfg) (sched : list step) (s : st) (g : gs) : Prop :=
   (g_ended g = true \/ existsb is_down_reset sched = true \/ g_term g = true \/ c_oneway c = true).
 
 Lemma c03_outcome_family : forall c, In c family -> forall sched, Forall allowed sched ->
-  quiescent (final proxy_src c sched) = true -> no_defect (final proxy_src c sched) = true ->
-  outcome c sched (final proxy_src c sched) (summ proxy_src c sched).
+  quiescent (final src_tree c sched) = true -> no_defect (final src_tree c sched) = true ->
+  outcome c sched (final src_tree c sched) (summ src_tree c sched).
 Proof.
   intros c Hc sched Hs Hq Hd. fam_conj c sched Hc Hs. unfold good_c03 in H. cbn [i_st i_gs i_dr summary_of] in H.
   repeat match type of H with (_ && _) = true => let H2 := fresh "K" in apply andb_prop in H as [H H2] end.
@@ -52,30 +52,30 @@ Proof.
 Qed.
 
 Lemma c03_timeout_family : forall c, In c family -> forall sched, Forall allowed sched ->
-  let s := final proxy_src c sched in
+  let s := final src_tree c sched in
   parked s = true -> no_defect s = true -> c_oneway c = false ->
   global_armed s = true \/ exists k, try_armed s = Some k.
 Proof.
   intros c Hc sched Hs s Hp Hd Ho. fam_conj c sched Hc Hs. unfold good_timeout in G4. cbn [i_st i_gs summary_of] in G4.
-  apply andb_prop in G4 as [T1 T2]. fold (final proxy_src c sched) in T1. fold s in T1.
+  apply andb_prop in G4 as [T1 T2]. fold (final src_tree c sched) in T1. fold s in T1.
   impl_elim T1 ltac:(rewrite Hp, Hd, Ho; reflexivity).
   apply orb_prop in T1 as [T1|T1]; [now left|right]. destruct (try_armed s) as [k|]; [now exists k|discriminate].
 Qed.
 
 (* firing the global timer of a parked request whose upstream is silent yields the 504 hijack reply and ends the request *)
 Lemma c03_timeout_reply_family : forall c, In c family -> forall sched, Forall allowed sched ->
-  let s := final proxy_src c sched in
+  let s := final src_tree c sched in
   parked s = true -> global_armed s = true -> received s = false -> down_reset s = false -> up_reset s = false ->
   direct s = false -> has_upreq s = true -> c_send c = [] ->
   let '(s1, o1) := env_step c EvGlobal s in
-  let '(s2, g2) := run_worker_n proxy_src c 40 (s1, gs_outs (summ proxy_src c sched) o1) in
+  let '(s2, g2) := run_worker_n src_tree c 40 (s1, gs_outs (summ src_tree c sched) o1) in
   wdone s2 = true /\ cleaned s2 = true /\ g_ended g2 = true /\ g_reply_kind g2 = Some (KHijack, 504).
 Proof.
   intros c Hc sched Hs s Hp Hg Hr Hdr Hur Hdi Hu Hsf. fam_conj c sched Hc Hs. unfold good_timeout in G4.
-  cbn [i_st i_gs summary_of] in G4. apply andb_prop in G4 as [T1 T2]. fold (final proxy_src c sched) in T2. fold s in T2.
+  cbn [i_st i_gs summary_of] in G4. apply andb_prop in G4 as [T1 T2]. fold (final src_tree c sched) in T2. fold s in T2.
   impl_elim T2 ltac:(rewrite Hp, Hg, Hr, Hdr, Hur, Hdi, Hu, Hsf; reflexivity).
   unfold summ, trace. destruct (env_step c EvGlobal s) as [s1 o1].
-  destruct (run_worker_n proxy_src c 40 (s1, gs_outs (gs_outs gs0 (snd (run proxy_src c (init_st 0) sched))) o1)) as [s2 g2].
+  destruct (run_worker_n src_tree c 40 (s1, gs_outs (gs_outs gs0 (snd (run src_tree c (init_st 0) sched))) o1)) as [s2 g2].
   repeat match type of T2 with (_ && _) = true => let H2 := fresh "J" in apply andb_prop in T2 as [T2 H2] end.
   repeat split; auto.
   destruct (g_reply_kind g2) as [[[] z]|]; try discriminate.
@@ -85,12 +85,12 @@ Qed.
 
 (* ---------- C10 ---------- *)
 Lemma c10_gauge_family : forall c, In c family -> forall sched, Forall allowed sched ->
-  let s := final proxy_src c sched in let g := summ proxy_src c sched in
+  let s := final src_tree c sched in let g := summ src_tree c sched in
   (g_gauge g = 0 \/ g_gauge g = -1) /\ (cleaned s = true <-> g_gauge g = -1) /\
   (quiescent s = true -> no_defect s = true -> 1 + g_gauge g = 0).
 Proof.
   intros c Hc sched Hs s g. fam_conj c sched Hc Hs. unfold good_c10_gauge in G3. cbn [i_st i_gs summary_of] in G3.
-  fold (final proxy_src c sched) in G3. fold s in G3. fold (trace proxy_src c sched) in G3. fold (summ proxy_src c sched) in G3. fold g in G3.
+  fold (final src_tree c sched) in G3. fold s in G3. fold (trace src_tree c sched) in G3. fold (summ src_tree c sched) in G3. fold g in G3.
   apply andb_prop in G3 as [G3 Q]. apply andb_prop in G3 as [V E].
   apply orb_prop in V. apply Bool.eqb_prop in E. split; [|split].
   - destruct V as [V|V]; apply Z.eqb_eq in V; auto.
@@ -99,12 +99,12 @@ Proof.
 Qed.
 
 Lemma c10_res_family : forall c, In c family -> forall sched, Forall allowed sched ->
-  let s := final proxy_src c sched in let g := summ proxy_src c sched in
+  let s := final src_tree c sched in let g := summ src_tree c sched in
   0 <= g_res_min g /\ g_res g <= 1 /\ rc s = g_res g /\ (cleaned s = true -> g_res g = 0) /\
   (c_max_retries c <> 0 -> (reserved s = true <-> g_res g = 1)).
 Proof.
   intros c Hc sched Hs s g. fam_conj c sched Hc Hs. unfold good_c10_res in G2. cbn [i_st i_gs summary_of] in G2.
-  fold (final proxy_src c sched) in G2. fold s in G2. fold (trace proxy_src c sched) in G2. fold (summ proxy_src c sched) in G2. fold g in G2.
+  fold (final src_tree c sched) in G2. fold s in G2. fold (trace src_tree c sched) in G2. fold (summ src_tree c sched) in G2. fold g in G2.
   repeat match type of G2 with (_ && _) = true => let H2 := fresh "J" in apply andb_prop in G2 as [G2 H2] end.
   apply Z.leb_le in G2. apply Z.leb_le in J2. apply Z.eqb_eq in J1. repeat split; auto.
   - intros Hcl. impl_elim J ltac:(assumption). now apply Z.eqb_eq.
@@ -116,12 +116,12 @@ Qed.
 
 (* ---------- C14 ---------- *)
 Lemma c14_denied_family : forall c, In c family -> forall sched, Forall allowed sched ->
-  let g := summ proxy_src c sched in
+  let g := summ src_tree c sched in
   g_denied g = true -> g_new g = 0%nat /\ g_new_after_deny g = false /\
   (g_started g = true -> exists k code, g_reply_kind g = Some (k, code) /\ k <> KUp).
 Proof.
   intros c Hc sched Hs g Hd. fam_conj c sched Hc Hs. unfold good_c14 in G1. cbn [i_st i_gs summary_of] in G1.
-  fold (trace proxy_src c sched) in G1. fold (summ proxy_src c sched) in G1. fold g in G1.
+  fold (trace src_tree c sched) in G1. fold (summ src_tree c sched) in G1. fold g in G1.
   apply andb_prop in G1 as [G1 R]. apply andb_prop in G1 as [N D].
   impl_elim D ltac:(assumption). apply Nat.eqb_eq in D. apply negb_true_iff in N. repeat split; auto.
   intros Hst. impl_elim R ltac:(rewrite Hd, Hst; reflexivity).
@@ -129,7 +129,7 @@ Proof.
 Qed.
 
 Lemma c14_reply_family : forall c, In c family -> forall sched, Forall allowed sched ->
-  let s := final proxy_src c sched in let g := summ proxy_src c sched in
+  let s := final src_tree c sched in let g := summ src_tree c sched in
   g_denied g = true -> g_term g = false -> existsb is_down_reset sched = false -> existsb is_terminate sched = false ->
   quiescent s = true -> no_defect s = true ->
   g_ended g = true /\ g_hdr g = 1%nat /\ Forall (fun n => (n <= 1)%nat) (scalls s) /\
@@ -137,7 +137,7 @@ Lemma c14_reply_family : forall c, In c family -> forall sched, Forall allowed s
 Proof.
   intros c Hc sched Hs s g Hd Ht Hdr Htm Hq Hnd. fam_conj c sched Hc Hs. unfold good_c14_reply in G0.
   cbn [i_st i_gs i_dr i_tm summary_of] in G0.
-  fold (final proxy_src c sched) in G0. fold s in G0. fold (trace proxy_src c sched) in G0. fold (summ proxy_src c sched) in G0. fold g in G0.
+  fold (final src_tree c sched) in G0. fold s in G0. fold (trace src_tree c sched) in G0. fold (summ src_tree c sched) in G0. fold g in G0.
   impl_elim G0 ltac:(rewrite Hd, Ht, Hdr, Htm, Hq, Hnd; reflexivity).
   repeat match type of G0 with (_ && _) = true => let H2 := fresh "J" in apply andb_prop in G0 as [G0 H2] end.
   repeat split; auto.
@@ -151,11 +151,11 @@ Qed.
 
 (* ---------- C17 (retry part) ---------- *)
 Lemma c17_retry_family : forall c, In c family -> forall sched, Forall allowed sched ->
-  let g := summ proxy_src c sched in
-  (g_new g <= 1 + budget proxy_src c)%nat /\ g_new_after_start g = false /\ g_new_unchosen g = false.
+  let g := summ src_tree c sched in
+  (g_new g <= 1 + budget src_tree c)%nat /\ g_new_after_start g = false /\ g_new_unchosen g = false.
 Proof.
   intros c Hc sched Hs g. fam_conj c sched Hc Hs. unfold good_c17 in G. cbn [i_st i_gs summary_of] in G.
-  fold (trace proxy_src c sched) in G. fold (summ proxy_src c sched) in G. fold g in G.
+  fold (trace src_tree c sched) in G. fold (summ src_tree c sched) in G. fold g in G.
   apply andb_prop in G as [G U]. apply andb_prop in G as [B A].
   apply Nat.leb_le in B. apply negb_true_iff in A. apply negb_true_iff in U. auto.
 Qed.
@@ -171,22 +171,22 @@ Proof.
   destruct Ho as [-> | [-> | [-> | ->]]]; cbn; rewrite ?orb_true_r; reflexivity.
 Qed.
 
-Lemma refuted_loop : ~ outcome_statement proxy_src.
+Lemma refuted_loop : ~ outcome_statement src_tree.
 Proof.
   intros H. destruct witness_loop as (Hq & _ & _ & _ & _ & Hbad).
-  pose proof (outcome_ok_of cfg_loop sched_loop proxy_src Hq (H cfg_loop sched_loop Hq)) as K.
+  pose proof (outcome_ok_of cfg_loop sched_loop src_tree Hq (H cfg_loop sched_loop Hq)) as K.
   rewrite K in Hbad. exact (Bool.diff_true_false Hbad).
 Qed.
-Lemma refuted_nog : ~ outcome_statement proxy_src.
+Lemma refuted_nog : ~ outcome_statement src_tree.
 Proof.
   intros H. destruct witness_nog as (Hq & _ & _ & _ & _ & _ & Hbad).
-  pose proof (outcome_ok_of cfg_nog drive proxy_src Hq (H cfg_nog drive Hq)) as K.
+  pose proof (outcome_ok_of cfg_nog drive src_tree Hq (H cfg_nog drive Hq)) as K.
   rewrite K in Hbad. exact (Bool.diff_true_false Hbad).
 Qed.
-Lemma refuted_upf : ~ outcome_statement proxy_src.
+Lemma refuted_upf : ~ outcome_statement src_tree.
 Proof.
   intros H. destruct witness_upf as (Hq & _ & _ & _ & _ & Hbad).
-  pose proof (outcome_ok_of cfg_upf sched_upf proxy_src Hq (H cfg_upf sched_upf Hq)) as K.
+  pose proof (outcome_ok_of cfg_upf sched_upf src_tree Hq (H cfg_upf sched_upf Hq)) as K.
   rewrite K in Hbad. exact (Bool.diff_true_false Hbad).
 Qed.
 
@@ -196,9 +196,9 @@ Proof. unfold drive. apply Forall_concat. apply Forall_forall. intros l Hl. appl
 
 Lemma c03_example_holds :
   let c := mk false false false RouteForward 2 true 0 [] true 1 [] [] [PoolConnFail] in
-  let sched := drive ++ [Env (EvUpResp 1 503 true false)] ++ drive ++ [Env (EvUpResp 2 200 true true)] ++ drive in
-  In c family /\ Forall allowed sched /\ quiescent (final proxy_src c sched) = true /\ no_defect (final proxy_src c sched) = true /\
-  g_ended (summ proxy_src c sched) = true /\ g_new (summ proxy_src c sched) = 3%nat.
+  let sched := drive ++ [Env (EvUpResp 1 503 true true)] ++ drive ++ [Env (EvUpResp 2 200 true true)] ++ drive in
+  In c family /\ Forall allowed sched /\ quiescent (final src_tree c sched) = true /\ no_defect (final src_tree c sched) = true /\
+  g_ended (summ src_tree c sched) = true /\ g_new (summ src_tree c sched) = 3%nat.
 Proof.
   cbn zeta. split; [|split].
   - unfold family. apply in_or_app. right. apply in_or_app. right. apply in_or_app. left.
@@ -231,17 +231,17 @@ Qed.
 
 (* ---------- examples ---------- *)
 Lemma c10_example_holds :
-  wdone (final proxy_src cfg_breaker sched_plain) = true /\ cleaned (final proxy_src cfg_breaker sched_plain) = true /\
-  g_res (summ proxy_src cfg_breaker sched_plain) = 0 /\ g_res_min (summ proxy_src cfg_breaker sched_plain) = 0 /\
-  1 + g_gauge (summ proxy_src cfg_breaker sched_plain) = 0.
+  wdone (final src_tree cfg_breaker sched_plain) = true /\ cleaned (final src_tree cfg_breaker sched_plain) = true /\
+  g_res (summ src_tree cfg_breaker sched_plain) = 0 /\ g_res_min (summ src_tree cfg_breaker sched_plain) = 0 /\
+  1 + g_gauge (summ src_tree cfg_breaker sched_plain) = 0.
 Proof. vm_compute. repeat split; reflexivity. Qed.
 
 Lemma c14_example_holds :
   let c := mk false false false RouteForward 2 true 0 [] false 0
               [{| f_phase := 1; f_code := 403; f_verdicts := [VHijackCont] |}; {| f_phase := 1; f_code := 429; f_verdicts := [VReMatch] |}]
               [{| sf_verdicts := [] |}] [] in
-  In c family /\ Forall allowed drive /\ g_denied (summ proxy_src c drive) = true /\
-  g_reply_kind (summ proxy_src c drive) = Some (KHijack, 403) /\ scalls (final proxy_src c drive) = [1%nat].
+  In c family /\ Forall allowed drive /\ g_denied (summ src_tree c drive) = true /\
+  g_reply_kind (summ src_tree c drive) = Some (KHijack, 403) /\ scalls (final src_tree c drive) = [1%nat].
 Proof.
   cbn zeta. split; [|split].
   - unfold family. apply in_or_app. left. apply in_or_app. right. apply in_or_app. left.
@@ -253,11 +253,20 @@ Qed.
 Lemma c17_example_holds :
   let c := mk false false false RouteForward 2 true 4 [] true 1 [] [] [PoolConnFail] in
   let sched := drive ++ [Env (EvPerTry 1)] ++ drive ++ [Env (EvUpResp 2 503 false false)] ++ drive ++ [Env (EvUpResp 3 200 false false)] ++ drive in
-  In c family /\ Forall allowed sched /\ g_new (summ proxy_src c sched) = 4%nat /\ g_ended (summ proxy_src c sched) = true.
+  In c family /\ Forall allowed sched /\ g_new (summ src_tree c sched) = 4%nat /\ g_ended (summ src_tree c sched) = true.
 Proof.
   cbn zeta. split; [|split].
   - unfold family. apply in_or_app. left. apply in_or_app. right. apply in_or_app. right.
     vm_compute. repeat (first [left; reflexivity | right]).
   - repeat (apply Forall_app; split); try apply allowed_drive; repeat (apply Forall_cons || apply Forall_nil); cbn; auto.
   - vm_compute. repeat split; reflexivity.
+Qed.
+
+(* ---------- the pooled filter-chain object: a Put that leaves the cursor lets the next stream skip its leading filters ---------- *)
+Definition fresh_cursor_statement (src : srcp) : Prop :=
+  forall prev rc0, rcursor (next_request src prev rc0) = 0%nat /\ scursor (next_request src prev rc0) = 0%nat.
+Lemma refuted_stale_cursor : ~ fresh_cursor_statement src_no_put_reset.
+Proof.
+  intros H. destruct witness_stale_cursor as (_ & H1 & _). destruct (H (final src_no_put_reset cfg_park drive) 0) as [H0 _].
+  rewrite H0 in H1. discriminate H1.
 Qed.
